@@ -46,6 +46,8 @@ const (
 	ckDataOther // DATA on a stream the client never opened
 	ckInterim   // a complete 1xx header block (:status 100), no END_STREAM
 	ckTrailers  // HEADERS with END_STREAM carrying one regular field
+	ckInterimEnd // a 1xx block with END_STREAM: an interim response cannot end the stream (8.1)
+	ckStatus4    // a complete block with END_STREAM whose :status is "0200": not a three-digit code
 	ckCount
 )
 
@@ -184,6 +186,10 @@ func vClientFrame(k int, id uint32, raw uint32) []byte {
 		return vFrame(0x20, vU8(), id, be)
 	case ckInterim:
 		return vFrame(0x1, 0x4, id, []byte{0x08, 0x03, '1', '0', '0'})
+	case ckInterimEnd:
+		return vFrame(0x1, 0x5, id, []byte{0x08, 0x03, '1', '0', '0'})
+	case ckStatus4:
+		return vFrame(0x1, 0x5, id, []byte{0x08, 0x04, '0', '2', '0', '0'})
 	case ckTrailers:
 		return vFrame(0x1, 0x5, id, []byte{0x00, 0x03, 'x', '-', 'z', 0x01, 'z'})
 	default:
@@ -192,7 +198,7 @@ func vClientFrame(k int, id uint32, raw uint32) []byte {
 }
 
 // Two requests are in flight on streams 1 and 3. The server then sends every
-// sequence of 2 (quick) / 3 (thorough) frames drawn from twenty kinds
+// sequence of 2 (quick) / 3 (thorough) frames drawn from twenty-two kinds
 // (HEADERS whole or opened, with or without END_STREAM, CONTINUATION, DATA
 // with and without END_STREAM, RST_STREAM with any code, WINDOW_UPDATE with
 // any increment, PRIORITY, PUSH_PROMISE, PING, SETTINGS, SETTINGS ACK, GOAWAY,
